@@ -1145,7 +1145,9 @@ class PseudoNetCDFFile(PseudoNetCDFSelfReg, object):
                 vals = np.ma.masked_less_equal(vals, less_equal)
 
             if values is not None:
-                vals = np.ma.masked_values(vals, values)
+                valmask = np.ma.getmaskarray(
+                    np.ma.masked_values(np.ma.getdata(vals), values))
+                vals = np.ma.masked_where(valmask, vals)
 
             if equal is not None:
                 vals = np.ma.masked_equal(vals, equal)
